@@ -410,6 +410,12 @@ func leastConnsBalance(backs BackendList) (BackendList, error) {
 		}
 	}
 
+	// connection numbers may be changed by other requests between the two
+	// passes, in which case no backend may compare equal to best any more
+	if len(candidates) == 0 {
+		candidates = append(candidates, best)
+	}
+
 	return candidates, nil
 }
 
